@@ -31,21 +31,27 @@ FORMS = ["line-kw-file", "marker-file-flags", "marker-bare", "pragma-text", "pra
          "marker-file-flags-tabs"]
 
 
-def _mk_directive(form, k=0, indent=""):
+def _mk_directive(form, k=0, indent="", hash_gap=None):
     if form == "line-kw-file":
-        return layout.line_directive(40 + 100 * k, "f%d.h" % k, keyword=True, indent=indent)
+        return layout.line_directive(40 + 100 * k, "f%d.h" % k, keyword=True, indent=indent,
+                                     hash_gap=hash_gap)
     if form == "marker-file-flags":
-        return layout.line_directive(7 + 10 * k, "d/g%d.h" % k, (1, 3), keyword=False, indent=indent)
+        return layout.line_directive(7 + 10 * k, "d/g%d.h" % k, (1, 3), keyword=False, indent=indent,
+                                     hash_gap=hash_gap)
     if form == "marker-file-flags-tabs":
         return layout.line_directive(7 + 10 * k, "d/g%d.h" % k, (1, 3), keyword=False, indent=indent,
-                                     field_sep="\t")
+                                     field_sep="\t", hash_gap=hash_gap)
     if form == "marker-bare":
-        return layout.line_directive(90 + 100 * k, keyword=False, indent=indent)
+        return layout.line_directive(90 + 100 * k, keyword=False, indent=indent, hash_gap=hash_gap)
     if form == "pragma-text":
-        return layout.pragma_directive("omp x(%d)" % k, indent=indent)
+        return layout.pragma_directive("omp x(%d)" % k, indent=indent, hash_gap=hash_gap or "")
     if form == "pragma-bare":
-        return layout.pragma_directive(None, indent=indent)
+        return layout.pragma_directive(None, indent=indent, hash_gap=hash_gap or "")
     raise ValueError(form)
+
+
+# (hash gap, indentation) variants every directive form is also rendered with
+DIRECTIVE_SHAPES = [("  ", ""), ("\t", ""), (None, " \t")]
 
 
 def _lookup(mode):
@@ -54,8 +60,9 @@ def _lookup(mode):
 
 def _build(case):
     dirs = {}
-    for g, form, k, indent in case.get("directives", []):
-        dirs.setdefault(g, []).append(_mk_directive(form, k, indent))
+    for spec in case.get("directives", []):
+        g, form, k, indent = spec[:4]
+        dirs.setdefault(g, []).append(_mk_directive(form, k, indent, spec[4] if len(spec) > 4 else None))
     return layout.lay_out(case["tokens"], case["seps"], dirs, filename=FILENAME,
                           paste="keep", end_newline=case.get("end_newline", True),
                           is_type=_lookup(case.get("lookup", "T")))
@@ -131,7 +138,8 @@ def check_case(case):
                 clause = "line" if g[2] != e[2] else "column" if g[3] != e[3] else "file"
                 after = _prev_kind(kinds, i) if kinds is not None else "pasted"
                 sig = f"pos:{clause}@after-{after}"
-            if e is not None and e[0] == "PPPRAGMA" and text.endswith("pragma") and i == len(exp) - 1:
+            if e is not None and e[0] == "PPPRAGMA" and text.endswith("pragma") and i == len(exp) - 1 \
+                    and g is not None and g[0] == "PPHASH":
                 # separately signed: a bare `#pragma` that ends the text
                 # without a newline (a source file must end in a newline,
                 # C99 5.1.1.2, so this is at the edge of the property)
@@ -160,6 +168,8 @@ def _cases_for_pair(a, b, seps, dir_mode, both_edges):
             if g == 2:
                 yield {"tokens": [a, b], "seps": ["", " ", ""], "directives": [[g, f, 0, ""]],
                        "end_newline": False}
+            for hg, ind in DIRECTIVE_SHAPES:
+                yield {"tokens": [a, b], "seps": ["", " ", ""], "directives": [[g, f, 0, ind, hg]]}
             if dir_mode == "thorough":
                 yield {"tokens": [a, b], "seps": [" ", "\n", "\t"], "directives": [[g, f, 0, "  "]]}
                 for f2 in FORMS:
@@ -216,6 +226,16 @@ def _pair_work(task):
                 # (c) control: the same pair with a lookup that never says yes
                 for s in seps:
                     _run_cases([{"tokens": [a, b], "seps": ["", s, ""], "lookup": "never"}], acc)
+        # pragma lines as members of the token stream (every shape: hash gap,
+        # indentation, bare) next to every vocabulary token
+        for P in lexvocab.PRAGMA_TOKENS:
+            for s in seps:
+                _run_cases([{"tokens": [a, P], "seps": ["", s, ""]},
+                            {"tokens": [P, a], "seps": ["", s, ""]},
+                            {"tokens": [a, P], "seps": [s, s, s], "end_newline": False}], acc)
+            for b in lexvocab.TRIPLE:
+                _run_cases(({"tokens": [a, P, b], "seps": ["", s, s, ""]}
+                            for s in lexvocab.SEPARATORS_TRIPLE), acc)
     return _fin_acc(acc, s0)
 
 
@@ -405,7 +425,7 @@ def run(tier):
 
     # vacuity guards
     V = len(lexvocab.FULL)
-    if pairs_n < V * V * 4 or chars_n < 20 ** L:
+    if pairs_n < V * V * (4 + 18 * 4) or chars_n < 20 ** L:
         R.fail("vacuous:too-few-cases", {"pairs": pairs_n, "chars": chars_n}, "explored less than the stated bound")
     if len(tot["types"]) < 100 or "TYPEID" not in tot["types"] or "PPPRAGMASTR" not in tot["types"]:
         R.fail("vacuous:comparison-dead", {"types": sorted(tot["types"])}, "too few distinct expected token types")
@@ -429,6 +449,8 @@ def run(tier):
     R.set("bounds", {
         "vocabulary": V, "separators": lexvocab.SEPARATORS_QUICK if quick else lexvocab.SEPARATORS_THOROUGH,
         "directive_forms": FORMS, "directive_sequences": 1 if quick else 2,
+        "directive_shapes(hash_gap,indent)": [["", ""]] + [[h, i] for h, i in DIRECTIVE_SHAPES],
+        "pragma_tokens_in_stream": lexvocab.PRAGMA_TOKENS,
         "triple_vocabulary": 0 if quick else len(lexvocab.TRIPLE),
         "triple_separators": lexvocab.SEPARATORS_TRIPLE, "chars<=": L,
         "char_alphabet": lexvocab.CHAREX})
@@ -443,6 +465,8 @@ def run(tier):
         {"tokens": ["T", "a"], "seps": ["", "\n", ""], "directives": [[1, "line-kw-file", 0, ""]]},
         {"tokens": ["1.5", "."], "seps": ["", "\t", ""], "directives": [[2, "pragma-text", 0, ""]], "end_newline": False},
         {"kind": "chars", "text": "'a\n1"},
+        {"tokens": ["09.5", "#\tpragma pack(1)", "a"], "seps": ["", " ", " ", ""]},
+        {"tokens": ["a", "b"], "seps": ["", " ", ""], "directives": [[1, "pragma-text", 0, "", "\t"]]},
     ]
     return R.finish(
         samples,
